@@ -4,6 +4,7 @@ import (
 	"encoding/json"
 	"fmt"
 	"os"
+	"path/filepath"
 	"strings"
 	"testing"
 	"time"
@@ -404,6 +405,10 @@ func clipArgs(a []string) []string {
 func runTextCase(steps []textStep) []string {
 	tw := &textWorld{root: NewStore("c17"), expects: map[string][2]*string{}, trimOK: map[string]bool{}}
 	defer RemoveAll(tw.root)
+	// files a text might seem to point at
+	_ = os.MkdirAll(filepath.Join(tw.root, "src"), 0o755)
+	_ = os.WriteFile(filepath.Join(tw.root, "notes.md"), []byte("contents of notes.md\n"), 0o644)
+	_ = os.WriteFile(filepath.Join(tw.root, "src", "main.go"), []byte("package main\n"), 0o644)
 	for i, st := range steps {
 		if v := tw.apply(st); len(v) > 0 {
 			return v
@@ -445,6 +450,12 @@ func TestC17(t *testing.T) {
 			max := 3000000
 			if channel == "flags" || (isTitle && channel == "bodystdin") {
 				max = 100000 // argv limit per argument is 128 KiB
+			}
+			if pct(rt, 4, label+".reference") {
+				// text that looks like a reference to something else: it is text
+				classSet["looks-like-a-file-or-shell-reference"] = true
+				r := oneOf(rt, []string{"@notes.md", "@src/main.go", "@.ergo/plans.jsonl", "$(cat notes.md)", "`cat notes.md`", "file://notes.md", "<notes.md", "~/notes.md", "${HOME}", "%s %d %[1]v", "{{.Title}}"}, label+".reference.which")
+				return &r
 			}
 			s, cl := genText(rt, label, channel != "flags" && !(isTitle && channel == "bodystdin"), max)
 			for _, c := range cl {
